@@ -16,7 +16,7 @@ struct Lim { std::string dim; long L; std::vector<long> levels; };
 static std::vector<Lim> limits() {
     return {
         {"param_description", 255, {254, 255, 256, 1000}}, {"param_name", 127, {126, 127, 128, 300}}, {"group_name", 127, {126, 127, 128, 300}},
-        {"dimension_entry", 255, {254, 255, 256, 1000}}, {"string_length", 255, {254, 255, 256, 1000}}, {"string_count", 255, {254, 255, 256, 1000}},
+        {"dimension_entry", 255, {254, 255, 256, 1000}}, {"empty_string_count", 255, {254, 255, 256, 300}}, {"dimension_after_empty", 255, {254, 255, 256, 300}}, {"string_length", 255, {254, 255, 256, 1000}}, {"string_count", 255, {254, 255, 256, 1000}},
         {"points", 255, {254, 255, 256, 300}}, {"channels", 255, {254, 255, 256, 300}}, {"frames", 32767, {32766, 32767, 32768, 70000}},
         {"int_max", 32767, {32766, 32767, 32768, 100000}}, {"int_min", -32768, {-32767, -32768, -32769, -100000}}, {"param_blocks", 255, {254, 255, 256, 300}}, {"record_offset", 65535, {65534, 65535, 65536, 262144}},
     };
@@ -31,6 +31,8 @@ static void applyLimit(Build& b, const std::string& dim, long v) {
     else if (dim == "param_name") { Param p(std::string((size_t)v, 'N')); p.set(4); b.c.parameter("LIMITS", p); }
     else if (dim == "group_name") { Param p("INLONG"); p.set(5); b.c.parameter(std::string((size_t)v, 'G'), p); }
     else if (dim == "dimension_entry") { Param p("WIDE"); std::vector<int> d((size_t)v); for (size_t i = 0; i < d.size(); ++i) d[i] = (int)i - 100; p.set(d); b.c.parameter("LIMITS", p); }
+    else if (dim == "empty_string_count") { Param p("BLANKS"); p.set(std::vector<std::string>((size_t)v, std::string())); b.c.parameter("LIMITS", p); }            // dimensions [0, v]
+    else if (dim == "dimension_after_empty") { Param p("HOLLOW"); p.set(std::vector<int>(), {0, (size_t)v}); b.c.parameter("LIMITS", p); }                         // a value-less matrix [0, v]
     else if (dim == "string_length") { Param p("LONGSTR"); p.set(std::vector<std::string>() = {std::string((size_t)v, 's'), "t"}); b.c.parameter("LIMITS", p); }
     else if (dim == "string_count") { Param p("MANYSTR"); std::vector<std::string> s; for (long i = 0; i < v; ++i) s.push_back("s" + std::to_string(i)); p.set(s); b.c.parameter("LIMITS", p); }
     else if (dim == "points") b.nPoints = v; else if (dim == "channels") b.nChans = v; else if (dim == "frames" || dim == "last_frame") b.nFrames = v;
